@@ -46,6 +46,16 @@ SUBJECTS = ["ImageBatch", "FlowFields/cube", "FlowFields/cube_corners", "FlowFie
 N_PROGRAMS = {"quick": 400, "thorough": 160000}
 
 
+def _as_flow_fields(x):
+    r"""Conversion constructors between the batch classes (typed inputs); identity program for the plain carrier."""
+    from deepali.data.flow import FlowFields
+    from deepali.data.image import ImageBatch
+
+    # (an image batch whose channels are vector components; flow fields themselves are left alone: constructing from
+    # them without axes falls back to the documented default axes)
+    return FlowFields(x) if type(x) is ImageBatch else x
+
+
 def ops():
     r"""Catalogue: name -> callable(x, torch, F). Applied to the subject and to the carrier alike."""
     import torch
@@ -85,7 +95,7 @@ def ops():
         "split_with_sizes_3": lambda x: x.split_with_sizes([1, 1, 1][: x.shape[0]]), "torch_split_with_sizes_3": lambda x: torch.split_with_sizes(x, [1, 1, 1][: x.shape[0]]), "split_with_sizes_dim1": lambda x: x.split_with_sizes([1, x.shape[1] - 1], dim=1),
         "collate_sub_batches": lambda x: collate(x, [slice(0, 2), slice(2, None)]), "collate_three": lambda x: collate(x, [slice(0, 1), slice(1, 2), slice(2, None)]), "collate_items": lambda x: collate(x, [0, 1, 2]),
         "rebatch_from_iteration": lambda x: type(x).from_images(list(x)) if hasattr(type(x), "from_images") and len(x) else x, "append_self": lambda x: x.append(x) if hasattr(x, "append") else torch.cat([x, x]),
-        "chunk_dim_positional": lambda x: x.chunk(2, 1), "unbind_dim_positional": lambda x: x.unbind(1), "narrow_kw": lambda x: x.narrow(dim=0, start=1, length=2), "narrow_neg_start": lambda x: x.narrow(0, -2, 2), "torch_narrow_neg_start": lambda x: torch.narrow(x, 0, -2, 1), "select_kw": lambda x: x.select(dim=0, index=1), "tensor_split_dim_kw": lambda x: x.tensor_split(2, dim=0),
+        "chunk_dim_positional": lambda x: x.chunk(2, 1), "unbind_dim_positional": lambda x: x.unbind(1), "as_flow_fields": lambda x: _as_flow_fields(x), "narrow_kw": lambda x: x.narrow(dim=0, start=1, length=2), "narrow_neg_start": lambda x: x.narrow(0, -2, 2), "torch_narrow_neg_start": lambda x: torch.narrow(x, 0, -2, 1), "select_kw": lambda x: x.select(dim=0, index=1), "tensor_split_dim_kw": lambda x: x.tensor_split(2, dim=0),
         "iterate": lambda x: list(x),
         # reordering
         "flip0": lambda x: x.flip(0), "flip_dims": lambda x: x.flip((0, 1)), "flipud": lambda x: x.flipud(), "torch_flip0": lambda x: torch.flip(x, [0]), "roll0": lambda x: x.roll(1, 0), "roll_flat": lambda x: x.roll(1),
